@@ -131,9 +131,9 @@ func (gj *resultGroupJob[T, R]) Close() error {
 
 	gj.ack()
 	gj.changeStatus(closed)
-	gj.wgc.Done()
-
-	if gj.wgc.Count() == 0 {
+	// close the stream on the decrement that reaches zero: re-reading the counter
+	// afterwards lets two finishing jobs both observe zero and close it twice
+	if gj.wgc.Done() {
 		gj.Response.Close()
 	}
 
@@ -202,9 +202,9 @@ func (gj *errorGroupJob[T]) Close() error {
 
 	gj.ack()
 	gj.changeStatus(closed)
-	gj.wgc.Done()
-
-	if gj.wgc.Count() == 0 {
+	// close the stream on the decrement that reaches zero: re-reading the counter
+	// afterwards lets two finishing jobs both observe zero and close it twice
+	if gj.wgc.Done() {
 		gj.Response.Close()
 	}
 
